@@ -19,6 +19,12 @@ Tie to the source:
 Functions live in real module files: harness/fnlib.py for the ordinary ones and two generated
 modules (scratch dir) with deliberately clashing __name__s.
 
+Second deepening (seeded changes C11-5 / C11-6): two more regenerated facts (gen_import_scan: which sections of the text the
+import loop searches for which module; gen_call_defaults: how fn_to_sympy binds the arguments of a nested call), pinned by
+C11_text_facts_pinned; correspondence shards c11_imports (import lines + NameError outcome of every emitted-text case against
+Imports.v) and c11_calls (accept / refuse of every helper call shape against CallDefaults.v); streams `nonfinite`
+(harness/c11_emit.py) and `helpers` (functions calling helpers with defaulted trailing parameters).
+
 Two states of the tree are understood (regenerated fact `register`): the snapshot's
 `functions[key] = ...` (three recorded findings, theorem C11_roundtrip_partial) and the repaired
 `_register_fn` of fixes/C11-function-name-collisions.diff (theorem C11_roundtrip, nothing recorded).
@@ -88,10 +94,15 @@ def gen() -> dict:
         "(* REGENERATED from src/mxlpy/meta/codegen_mxlpy.py and sympy_tools.py by harness/c11.py; do not edit.\n"
         "   An unrecognised key expression yields KsUnknown, a changed function body yields false; either\n"
         "   breaks C11_facts_pinned. *)\n"
-        "From MxlGen Require Import SymRepr.\n"
+        "From Coq Require Import List.\nFrom MxlGen Require Import SymRepr Imports CallDefaults.\nImport ListNotations.\n"
         f"Definition gen_mxlgen_facts : gen_facts := mkGenFacts {f['var_key']} {f['par_key']} {f['der_key']} "
         f"{f['rxn_key']} {f['sto_key']} {f['register']} {f['codegen_shape']} {f['symrepr_shape']} "
         f"{f['param_check']} {f['interchange']} {f['rename']} {f['emit']}.\n"
+        "(* which sections of the emitted text the import loop of generate_mxlpy_code_from_symbolic_repr searches for which\n"
+        "   module (None = loop not understood); pinned by C11_text_facts_pinned *)\n"
+        f"Definition gen_import_scan : option scan_table := {f['import_scan']}.\n"
+        "(* how fn_to_sympy (source_tools.py) binds the arguments of a translated call to the callee's parameters *)\n"
+        f"Definition gen_call_defaults : df_mode := {f['call_defaults']}.\n"
     )
     common.write_if_changed(common.area_dir(AREA) / "GenMxlGenFacts.v", text)
     return f
@@ -144,7 +155,57 @@ _EXTRA = [
     ("a", "rate_1", 3, True),  # 31
     ("a", "init_f_id_1", 6, True),  # 32
     ("b", "excess_1", 2, True),  # 33
+    # --- functions whose body CALLS A HELPER that has defaulted trailing parameters (source in CUSTOM_SRC).  `None` =
+    #     whether fn_to_sympy translates the object is OBSERVED on the tree under test (Fns.__init__): the shipped
+    #     translator refuses a call that relies on default values (strict zip), another tree may bind them.  The body id /
+    #     selection say what the PYTHON object computes (defaults as CPython binds them: right-aligned).
+    ("a", "cap3", 9, None, (3, [0, 1, 2])),  # 34  hmul(s1, s2, k=5, w=1) called hmul(a, b, c): first of two defaults passed
+    ("a", "aff3", 5, None, (3, [0, 1, 2])),  # 35  haff(a, b, c=7, g=1) called haff(a, b, c)
+    ("a", "add2", 2, None, (2, [0, 1])),  # 36  hadd(a, b=4, z=0) called hadd(a, b)
+    ("a", "sub2", 3, None, (2, [0, 1])),  # 37  hone(a, b, c=1) called hone(a, b): ONE default, omitted
+    ("a", "neg1", 1, None, (1, [0])),  # 38  hneg(a, m=1, z=0) called hneg(a): ALL defaults omitted
+    ("a", "add2full", 2, None, (2, [0, 1])),  # 39  hadd(a, b, 0): every argument passed
+    ("a", "quad2", 7, None, (2, [0, 1])),  # 40  hq(a, b, m=3, o=1) called hq(a, b, 3): a literal for the first default
 ]
+# helpers (module a and b alike) and the callers' bodies
+HELPERS_SRC = """
+def hmul(s1, s2, k=5, w=1):
+    return k * s1 * s2 * w
+
+
+def haff(a, b, c=7, g=1):
+    return a * b * g + c
+
+
+def hadd(a, b=4, z=0):
+    return a + b + z
+
+
+def hone(a, b, c=1):
+    return a * c - b
+
+
+def hneg(a, m=1, z=0):
+    return z - a * m
+
+
+def hq(a, b, m=3, o=1):
+    return a * a - m * b + o
+
+"""
+CUSTOM_SRC = {
+    34: "def cap3(a, b, c):\n    return hmul(a, b, c)\n\n",
+    35: "def aff3(a, b, c):\n    return haff(a, b, c)\n\n",
+    36: "def add2(a, b):\n    return hadd(a, b)\n\n",
+    37: "def sub2(a, b):\n    return hone(a, b)\n\n",
+    38: "def neg1(a):\n    return hneg(a)\n\n",
+    39: "def add2full(a, b):\n    return hadd(a, b, 0)\n\n",
+    40: "def quad2(a, b):\n    return hq(a, b, 3)\n\n",
+}
+# (callee parameters, number of defaults, number of arguments passed) of the one nested call of each object
+HELPER_CALLS = {34: (4, 2, 3), 35: (4, 2, 3), 36: (3, 2, 2), 37: (3, 1, 2), 38: (3, 2, 1), 39: (3, 2, 3), 40: (4, 2, 3)}
+HELPER_OBJS = sorted(CUSTOM_SRC)
+_OK_OBSERVED: dict[int, bool] = {}  # filled by Fns.__init__ for the objects whose entry says None
 N_LIB = 11
 F_CONSTANT = 22
 F_BAD = (20, 21)
@@ -157,6 +218,8 @@ def _extra(e: tuple) -> tuple[str, str, int, bool, int, list[int]]:
     """-> (module tag, name, sem, ok, arity, selection)"""
     mod, name, sem, ok = e[:4]
     ar, sel = e[4] if len(e) > 4 else (len(BODIES[sem][0]), list(range(len(BODIES[sem][0]))))
+    if ok is None:  # observed on the tree under test; refused until observed
+        ok = _OK_OBSERVED.get(N_LIB + _EXTRA.index(e), False)
     return mod, name, sem, ok, ar, list(sel)
 
 
@@ -207,10 +270,13 @@ class Fns:
 
         self.dir = common.scratch_dir("c11")
         self.tag = f"c11_{self.dir.name.replace('-', '_')}"
-        src = {"a": ["# generated by harness/c11.py\n"], "b": ["# generated by harness/c11.py\n"]}
+        src = {"a": ["# generated by harness/c11.py\n", HELPERS_SRC], "b": ["# generated by harness/c11.py\n", HELPERS_SRC]}
         for i, e in enumerate(_EXTRA):
             mod, name, sem, _ok, _ar, _sel = _extra(e)
             if mod == "x":
+                continue
+            if N_LIB + i in CUSTOM_SRC:
+                src[mod].append(CUSTOM_SRC[N_LIB + i])
                 continue
             params, body = obj_source(N_LIB + i)
             if name == "bad_index":
@@ -238,11 +304,37 @@ class Fns:
                 self.objs.append(mods[mod].lam)
             else:
                 self.objs.append(getattr(mods[mod], name))
+        # does the translator of the tree under test accept the helper-calling objects?  (asked of fn_to_sympy itself,
+        # once per object, with the call _fn_to_symbolic_repr makes; the round-trip oracle then demands: refused => generation
+        # raises, accepted => the rebuilt model behaves like the source)
+        self.observe_translatable()
         # the table and the objects must agree (name, meaning)
         for i, (name, sem, ar, _ok) in enumerate(table()):
             assert self.objs[i].__name__ == name, (i, name, self.objs[i].__name__)
             pt = [3, 5, 7][:ar]
             assert self.objs[i](*pt) == obj_sem(i, pt), (i, name)
+
+    def observe_translatable(self) -> None:
+        import logging
+
+        import sympy
+        from mxlpy.meta.sympy_tools import fn_to_sympy
+
+        prev = logging.root.manager.disable
+        logging.disable(logging.CRITICAL)
+        try:
+            for i, e in enumerate(_EXTRA):
+                if e[3] is not None:
+                    continue
+                f = N_LIB + i
+                ar = e[4][0]
+                try:
+                    expr = fn_to_sympy(self.objs[f], origin="probe", model_args=[sympy.Symbol(f"q{j}") for j in range(ar)])
+                except Exception:  # noqa: BLE001
+                    expr = None
+                _OK_OBSERVED[f] = expr is not None
+        finally:
+            logging.disable(prev)
 
     def close(self) -> None:
         try:
@@ -390,6 +482,58 @@ def gen_special(rng, kind: str) -> dict:
             f = rng.choice([23, 24, 33])
             uses.append((f, rng.sample(have, tab[f][2])))
     rng.shuffle(uses) if kind != "twins" or rng.random() < 0.3 else None
+    _place(rng, desc, nxt, uses, variables, params)
+    if not desc["rxn"] and rng.random() < 0.7:
+        desc["rxn"].append((fresh(), 0, [rng.choice(variables)], [(rng.choice(variables), ("stat", 1))]))
+    for k in ("par", "var", "der", "rxn"):
+        rng.shuffle(desc[k])
+    return desc
+
+
+def gen_helpers(rng) -> dict:
+    """Stream `helpers` (own rng): rate / derived / coefficient / initial-assignment functions whose body calls a helper
+    with defaulted trailing parameters -- some of the defaults passed, one default, all omitted, all passed, a literal
+    passed -- next to ordinary library functions.  Whether such an object is translatable is observed on the tree under
+    test (see Fns.observe_translatable): the shipped translator refuses every call that relies on a default."""
+    tab = table()
+    nxt = [10]
+
+    def fresh() -> int:
+        nxt[0] += 1
+        return nxt[0]
+
+    desc: dict[str, list] = {"par": [], "var": [], "der": [], "rxn": []}
+    vals = rng.sample([-3, -2, -1, 2, 3, 4, 5], 6)
+    variables: list[int] = []
+    params: list[int] = []
+    for _ in range(rng.randint(2, 3)):
+        n = fresh()
+        desc["var"].append((n, ("plain", vals.pop())))
+        variables.append(n)
+    for _ in range(rng.randint(1, 2)):
+        n = fresh()
+        desc["par"].append((n, ("plain", vals.pop())))
+        params.append(n)
+    have = variables + params
+    r = rng.random()
+    if r < 0.3:  # only calls that pass every argument: translated by the shipped tree, the rebuilt model is compared
+        objs = [39] * rng.randint(1, 2)
+    elif r < 0.75:  # one object of the stream
+        objs = [rng.choice([34, 34, 35, 35, 36, 36, 37, 38, 40, 40])]
+    else:
+        objs = rng.sample(HELPER_OBJS, rng.randint(2, 3))
+    uses: list[tuple[int, list[int]]] = []
+    for f in objs:
+        ar = tab[f][2]
+        pool = have + ([0] if rng.random() < 0.2 else [])
+        a = rng.sample(pool, ar) if rng.random() < 0.8 else [rng.choice(pool) for _ in range(ar)]
+        uses.append((f, a))
+        if rng.random() < 0.35:  # the same object under a second argument list
+            uses.append((f, rng.sample(have, ar)))
+    for _ in range(rng.randint(0, 2)):
+        f = rng.choice([2, 3, 4, 5, 9])
+        uses.append((f, rng.sample(have, tab[f][2])))
+    rng.shuffle(uses)
     _place(rng, desc, nxt, uses, variables, params)
     if not desc["rxn"] and rng.random() < 0.7:
         desc["rxn"].append((fresh(), 0, [rng.choice(variables)], [(rng.choice(variables), ("stat", 1))]))
@@ -1023,6 +1167,26 @@ CORPUS = [
 ]
 
 
+# second corpus (run after the random cases, with the rng of the `helpers` stream, so that the cases and states of the
+# older streams stay what they were): the shapes of seeded change C11-6 -- a derived quantity and a rate function calling
+# hill-like helpers with TWO defaulted trailing parameters and passing the first of them (objects 34, 35, 36, 40), next to
+# the harmless relatives (one default 37, all omitted 38, all passed 39).  The shipped translator refuses all but 39:
+# generation must raise; a translator that binds defaults must bind the LAST ones.
+CORPUS_HELPERS = [
+    {"par": [(11, ("plain", 4)), (12, ("plain", 3))], "var": [(13, ("plain", 3)), (14, ("plain", 2))],
+     "der": [(15, 34, [13, 14, 12])],
+     "rxn": [(16, 35, [13, 11, 12], [(13, ("stat", -1)), (14, ("stat", 1))]), (17, 4, [14, 12], [(14, ("stat", -1))])]},
+    {"par": [(11, ("plain", 2))], "var": [(12, ("plain", 3)), (13, ("plain", 5))],
+     "der": [(14, 36, [12, 11])], "rxn": [(15, 40, [13, 12], [(12, ("stat", 1)), (13, ("dyn", 36, [11, 12]))])]},
+    {"par": [(11, ("plain", 2)), (14, ("ia", 34, [11, 12, 13]))], "var": [(12, ("plain", 3)), (13, ("plain", -2))],
+     "der": [], "rxn": [(15, 0, [14], [(12, ("stat", 1))])]},
+    {"par": [(11, ("plain", 2))], "var": [(12, ("plain", 3))], "der": [(13, 37, [12, 11])], "rxn": [(14, 0, [13], [(12, ("stat", 1))])]},
+    {"par": [(11, ("plain", 2))], "var": [(12, ("plain", 3))], "der": [(13, 38, [12])], "rxn": [(14, 2, [13, 11], [(12, ("stat", -1))])]},
+    {"par": [(11, ("plain", 2))], "var": [(12, ("plain", 3))], "der": [(13, 39, [12, 11]), (14, 39, [11, 13])],
+     "rxn": [(15, 39, [14, 12], [(12, ("stat", 2))])]},
+]
+
+
 def _tupled(desc: dict) -> dict:
     """JSON round trip turns tuples into lists; normalise back."""
 
@@ -1046,6 +1210,10 @@ def describe(desc: dict) -> dict:
 
     def fn(f):
         mod = "harness.fnlib" if f < N_LIB else {"a": "moda", "b": "modb", "x": "mxlpy.fns"}[_EXTRA[f - N_LIB][0]]
+        if f in CUSTOM_SRC:
+            return f"{mod}: " + " ".join(CUSTOM_SRC[f].split()) + "  # helpers: " + "; ".join(
+                " ".join(h.split()) for h in HELPERS_SRC.strip().split("\n\n\n")
+            ) + f"  [translated by this tree: {tab[f][3]}]"
         if f < N_LIB:
             params, body = BODIES[tab[f][1]]
         else:
@@ -1084,7 +1252,13 @@ def check(run: Run) -> None:
         "repeated argument only); hand-written corpus (incl. the shapes of seeded changes C11-1..3) first.  A case is non-trivial "
         "if it has >=1 function slot; distinct by content.  Cases whose values leave |v|<2^40 are discarded and counted.  "
         "Emitted-text stream (own rng, oracle only): models of non-short binary64 numbers (stored values compared with ==), "
-        "functions translated to math.* and units (generation raises, or the source rebuilds the same values and units)."
+        "functions translated to math.* and units (generation raises, or the source rebuilds the same values and units); "
+        "non-finite stream (own rng): initial values / parameter values / numeric coefficients equal to inf, -inf, nan in models whose "
+        "functions are polynomial or use math.pi (stored numbers and answers compared with NaN = NaN).  Helpers stream (own rng, after "
+        "the older cases): rate / derived / coefficient / initial-assignment functions whose body calls a helper with defaulted trailing "
+        "parameters (first of two defaults passed, one default omitted, all omitted, all passed, literal passed); whether the tree "
+        "translates such an object is observed from fn_to_sympy once per run: refused => generation must raise, accepted => the "
+        "rebuilt model must behave like the source."
     )
     proofs_ok = run.check_proofs(AREA, PROPS)
     if facts.get("register") == "RegFresh":
@@ -1111,6 +1285,11 @@ def check(run: Run) -> None:
         "surrogates/readouts/data (not emitted by the real code), names that are not Python identifiers",
         "_parameter_names is modelled on strings (SymRepr.parameter_names) and compared text for text with the emitted parameter lists; "
         "CPython binding the parameters of a def left to right is [sbind]",
+        "import lines: the emitted text is modelled as the modules each of its five sections mentions (Imports.v); how a number / unit is "
+        "written (math.inf, math.nan, float('-inf'), sympy.physics.units.<name>) is modelled, what SymPy's printer writes into function "
+        "bodies is read from the generated file; the substring test f'{module}.' in body is taken as 'the section mentions the module'",
+        "binding of nested calls: CPython's positional call with right-aligned defaults is [py_bind] (modelled); translatability of the "
+        "helper-calling function objects is observed from fn_to_sympy itself (the translator is external to C11: property C06/C07)",
     ]
 
     rng = common.rng_for(run.seed, "c11")
@@ -1131,6 +1310,12 @@ def _run_cases(run: Run, rng, fns: Fns, thorough: bool, proofs_ok: bool) -> None
     for _ in range(n_random):
         kind = rng.choices(KINDS, weights=weights)[0]
         cases.append((kind, gen_desc(rng, kind, max_comp=9 if (thorough and rng.random() < 0.2) else 6)))
+    # functions calling helpers with defaulted parameters: own corpus + own stream + own rng, AFTER the older cases
+    rng_h = common.rng_for(run.seed, "c11-helpers")
+    first_helper_case = len(cases)
+    cases += [("corpus_helpers", _tupled(d)) for d in CORPUS_HELPERS]
+    for _ in range(260 if thorough else 40):
+        cases.append(("helpers", gen_helpers(rng_h)))
 
     kinds: dict[str, int] = {}
     tags: dict[str, int] = {}
@@ -1142,7 +1327,7 @@ def _run_cases(run: Run, rng, fns: Fns, thorough: bool, proofs_ok: bool) -> None
     discarded = 0
     reuse_cases = clash_ok_cases = 0
     for idx, (kind, desc) in enumerate(cases):
-        states = states_for(desc, rng)
+        states = states_for(desc, rng if idx < first_helper_case else rng_h)
         all_states[idx] = states
         r = run_impl(desc, fns, states)
         bad = oracle(desc, r, states)
@@ -1177,6 +1362,7 @@ def _run_cases(run: Run, rng, fns: Fns, thorough: bool, proofs_ok: bool) -> None
         "rebuilt_ok_with_one_function_under_several_argument_lists": reuse_cases,
         "rebuilt_ok_with_distinct_function_objects_sharing_a_name": clash_ok_cases,
         "oracle_failures_before_classification": len(failures),
+        "helper_calling_objects_translated_by_this_tree": {f"{f}:{table()[f][0]}": table()[f][3] for f in HELPER_OBJS},
     }
 
     # correspondence inside Coq
@@ -1227,6 +1413,9 @@ def _run_cases(run: Run, rng, fns: Fns, thorough: bool, proofs_ok: bool) -> None
     try:
         erng = common.rng_for(run.seed, "c11-emit")
         especs = [dict(w) for w in c11_emit.WITNESSES.values()] + c11_emit.gen_specs(erng, 500 if thorough else 90)
+        # non-finite numbers outside the functions (seeded change C11-5): the demo's shape first, then an own rng stream
+        especs += [dict(w) for w in c11_emit.NONFINITE_CORPUS]
+        especs += c11_emit.gen_nonfinite(common.rng_for(run.seed, "c11-nonfinite"), 150 if thorough else 30)
         esub: dict[str, int] = {}
         efail = 0
         for spec in especs:
@@ -1247,6 +1436,39 @@ def _run_cases(run: Run, rng, fns: Fns, thorough: bool, proofs_ok: bool) -> None
                     {"kind": "emit", "spec": spec, "what": bad, "source": src},
                 )
         run.coverage["input_distribution"]["emitted_text_cases"] = esub
+        # correspondence of the import lines and of the binding of nested calls (Imports.v / CallDefaults.v / TextCorr.v)
+        icases: list[tuple[dict, str]] = []
+        for spec in especs:
+            try:
+                ic = c11_emit.import_case(spec, emod)
+            except Exception as e:  # noqa: BLE001
+                run.broken_correspondence.append(f"import lines of {spec}: {type(e).__name__}: {e}")
+                continue
+            if ic is not None:
+                icases.append((spec, ic))
+        ccases = [(*HELPER_CALLS[f], bool(table()[f][3])) for f in HELPER_OBJS]
+        tres = common.coq_eval_many(
+            AREA,
+            {"c11_imports": c11_emit.imports_corr_file([c for _s, c in icases]), "c11_calls": c11_emit.calls_corr_file(ccases)},
+            timeout_s=600,
+        )
+        for name, what in (("c11_imports", icases), ("c11_calls", ccases)):
+            ok, out = tres[name]
+            lists = common.parse_eval_list(out) if ok else None
+            if not ok or not lists:
+                run.broken_correspondence.append(f"correspondence shard {name} did not evaluate: {out[-300:]}")
+                continue
+            for j in lists[-1][:3]:
+                if name == "c11_imports":
+                    run.broken_correspondence.append(f"import lines: model/implementation disagree on {what[j][0]}: observed {what[j][1]}")
+                else:
+                    f = HELPER_OBJS[j]
+                    run.broken_correspondence.append(
+                        f"binding of a nested call: model/implementation disagree on object {f} ({table()[f][0]}): "
+                        f"(parameters, defaults, arguments, translated) = {what[j]}"
+                    )
+            run.coverage[f"{name}_cases"] = len(what)
+            run.coverage[f"{name}_mismatches"] = len(lists[-1])
         run.coverage["input_distribution"]["emitted_text_failures_before_classification"] = efail
         for f in common.load_known_findings("C11"):
             w = f.get("witness", {})
